@@ -179,3 +179,38 @@ def run(ctx, rep):
     nw = [i for i in d.all_insts() if i.op == 'store' and d.expr(i.ops[1]).endswith('state->need_write') and d.const_of(i.ops[0]) == 1]
     ok = bool(nw) and any('scan->need_write' in a and p for s_ in nw for a, p in guards_of(d, s_))
     rep.check(ok, 'R-C11-3', 'state_diffscan: scan->need_write propagates to state->need_write', d.file, '', function='state_diffscan', construct='need_write')
+
+    # convergence: a kept record that was reported as different (move / restore) is brought in line with the disk in the same
+    # scan, so that the next scan finds it equal
+    rep.rule('R-C11-4', 'scan_file: a record reported as moved gets the new path, a record reported as restored gets the new inode (and its hash-set key), before it is kept', 2)
+    sf_ = P.fn('scan_file')
+    rep.analysed(sf_)
+    keeps = list(sf_.calls('scan_file_keep'))
+    if not keeps:
+        raise AnalysisBroken('scan_file: scan_file_keep not found')
+    def incs_of(member):
+        res = []
+        for i in sf_.all_insts():
+            if i.op == 'store' and sf_.expr(i.ops[1]).endswith('->' + member):
+                v = sf_.inst_of(i.ops[0])
+                if v is not None and v.op == 'add' and sf_.const_of(v.ops[1]) == 1:
+                    res.append(i)
+        return res
+    table = (
+        ('count_move', 'the new path', [c for c in sf_.calls('file_rename') if sf_.expr(c.ops[1]) == 'sub'], 'pathset'),
+        ('count_restore', 'the new inode', [i for i in sf_.all_insts() if i.op == 'store' and sf_.expr(i.ops[1]).lstrip('&') == 'file->inode' and 'st_ino' in sf_.expr(i.ops[0])], 'inodeset'),
+    )
+    for member, what, updaters, keyset in table:
+        inc = incs_of(member)
+        if not inc:
+            raise AnalysisBroken('scan_file: %s is never incremented' % member)
+        for ic in inc:
+            ups = [u for u in updaters if u.id in sf_.reach([ic])]
+            esc = sf_.reach([ic], stop={u.id for u in ups})
+            ok = bool(ups) and not any(k.id in esc for k in keeps) and not any(r_.id in esc for r_ in sf_.returns())
+            # the hash set keyed by the changed attribute is re-keyed around the update
+            rem = [c for c in sf_.calls('tommy_hashdyn_remove_existing') if keyset in sf_.expr(c.ops[0]) and c.id in sf_.reach([ic]) and any(u.id in sf_.reach([c]) for u in ups)]
+            ins = [c for c in sf_.calls('tommy_hashdyn_insert') if keyset in sf_.expr(c.ops[0]) and any(c.id in sf_.reach([u]) for u in ups)]
+            rep.check(ok and bool(rem) and bool(ins), 'R-C11-4', '%s: the record gets %s before it is kept' % (member, what), ic.loc(),
+                      'updated and re-keyed in %s' % keyset if ok and rem and ins else 'the record keeps its old value (updated: %s, removed from %s: %s, re-inserted: %s): the same difference is reported by every later scan' % (ok, keyset, bool(rem), bool(ins)),
+                      function='scan_file', construct='%s converges' % member)
